@@ -300,9 +300,20 @@ Definition grouping_sets_rows {A} (ms : list (list bool)) (l : list (row * A)) :
   concat (map (fun mo => set_rows mo l) (with_ordinals [] ms)).
 Definition grouping_sets_exec (fn : agg_fn) (ms : list (list bool)) (l : list (row * value)) : list (row * res value) :=
   ref_groups fn (grouping_sets_rows ms l).
-(* the DEFINITION: the union of the per-set aggregations *)
+(* the DEFINITION: the union of the per-set aggregations; the empty grouping set "()" (every column masked) has its
+   grand-total group even when the input has no row (standard SQL; init_empty_grouping_sets) *)
+Definition grand_total (m : list bool) : bool := forallb (fun b : bool => b) m.
+Definition set_groups {A} (mo : list bool * Z) (l : list (row * A)) : groups A :=
+  match l with
+  | [] => if grand_total (fst mo)
+          then [(map (fun _ => VNull) (fst mo) ++ [VInt (set_id (fst mo) (snd mo))], [])]
+          else []
+  | _ => group_pairs (set_rows mo l)
+  end.
+Definition grouping_sets_groups {A} (ms : list (list bool)) (l : list (row * A)) : groups A :=
+  concat (map (fun mo => set_groups mo l) (with_ordinals [] ms)).
 Definition grouping_sets_def (fn : agg_fn) (ms : list (list bool)) (l : list (row * value)) : list (row * res value) :=
-  concat (map (fun mo => ref_groups fn (set_rows mo l)) (with_ordinals [] ms)).
+  map (fun g => (fst g, agg_apply fn (snd g))) (grouping_sets_groups ms l).
 
 (* ------------------------------------------------------------------ the tie *)
 (* (a) operation histories on the real GroupOrderingPartial / GroupOrderingFull *)
@@ -372,11 +383,12 @@ Definition obs_eqb (a b : c06_obs) : bool :=
   end.
 
 (* (b) AggregateExec: one input, several aggregates over one nullable BIGINT argument, several runs *)
+Definition agg_row (aggs : list agg_fn) (g : row * list value) : res row :=
+  vs <- mapM (fun fn => agg_apply fn (snd g)) aggs;; Ok (fst g ++ vs).
 Definition c06_ref (aggs : list agg_fn) (rows : list (row * value)) : res rel :=
-  mapM (fun g : row * list value => vs <- mapM (fun fn => agg_apply fn (snd g)) aggs;; Ok (fst g ++ vs))
-       (group_pairs rows).
+  mapM (agg_row aggs) (group_pairs rows).
 Definition c06_ref_sets (aggs : list agg_fn) (ms : list (list bool)) (rows : list (row * value)) : res rel :=
-  c06_ref aggs (grouping_sets_rows ms rows).
+  mapM (agg_row aggs) (grouping_sets_groups ms rows).
 
 (* the output batches of the model of the ordered single-stage stream (empty emissions are not output batches) *)
 Definition stream_model (aggs : list agg_fn) (o : gord) (bs : nat) (batches : list (list (row * value)))
